@@ -162,6 +162,47 @@ def push_neg(sig):
     return out + ("!" if neg else "")
 
 
+def _by_name(prog, p, t):
+    """The hook specialised per function name (partial evaluation: the name is known, so matches and `name == ".."` tests on
+    it are decided), re-assembled as a match on the name - for hooks that dispatch on the arguments first and on the name
+    inside.  None when the name is not consulted at all."""
+    from vflib.terms import prune_nested
+    name = Tm("param", (0, prog.params(p)[0]["pat"].get("name", "name")))
+    lits = set()
+    for x in subterms(t):
+        if x.k == "match" and x.a[0] == name:
+            lits |= set(tables.str_constants(x.a[1]))
+        if x.k == "bin" and x.a[0] in ("Eq", "Ne") and name in (x.a[1], x.a[2]):
+            o = x.a[2] if x.a[1] == name else x.a[1]
+            if o.k == "lit" and o.a[0] == "str":
+                lits.add(o.a[1])
+        if x.k == "call" and x.a[0].endswith("::eq") and "PartialEq" in x.a[0] and len(x.a) == 3 and name in (x.a[1], x.a[2]):
+            o = x.a[2] if x.a[1] == name else x.a[1]
+            if o.k == "lit" and o.a[0] == "str":
+                lits.add(o.a[1])
+    if not lits:
+        return None
+    conds = [x for x in subterms(t) if (x.k == "bin" and x.a[0] in ("Eq", "Ne") and name in (x.a[1], x.a[2])) or
+             (x.k == "call" and x.a[0].endswith("::eq") and "PartialEq" in x.a[0] and len(x.a) == 3 and name in (x.a[1], x.a[2]))]
+
+    def spec(n):
+        known = {name: ("s", n)} if n is not None else {}
+        known_not = {} if n is not None else {name: [("s", l) for l in sorted(lits)]}
+        for c in conds:
+            o = c.a[2] if c.a[1] == name else c.a[1]
+            if o.k == "lit" and o.a[0] == "str":
+                val = (o.a[1] == n)
+                if c.k == "bin" and c.a[0] == "Ne":
+                    val = not val
+                known[("cond", c)] = val
+        return prune_nested(prune_nested(t, known, 0, known_not), known, 0, known_not)
+    arms = []
+    for n in sorted(lits):
+        arms.append(({"k": "Constant", "str": True, "value": n, "ty": "&str"}, None, spec(n)))
+    arms.append(({"k": "Wild", "ty": "&str"}, None, spec(None)))
+    return Tm("match", (name, tuple(arms)), t.n)
+
+
 def r1_r2(prog, ev, rep):
     rep.rule("C14-R1", "name table: five names; each needs the two-argument shape; array-ness conditions (in/nin: second "
              "argument; any_of/none_of/subset_of: both); every other shape -> null", floor=12)
@@ -171,7 +212,10 @@ def r1_r2(prog, ev, rep):
     where = prog.loc_of(p)
     t = ev.summary(p)
     if t.k != "match" or not (t.a[0].k == "param" and t.a[0].a[0] == 0):
-        rep.unrecognised("C14-R1", "extension_custom", where, "not a match on the function name"); return
+        t2 = _by_name(prog, p, t)
+        if t2 is None:
+            rep.unrecognised("C14-R1", "extension_custom", where, "not a match on the function name"); return
+        t = t2
     names = tables.str_constants(t.a[1])
     for want in WANT:
         if want not in names:
@@ -255,7 +299,15 @@ def r1_r2(prog, ev, rep):
         rep.check(ok, "C14-R2", name, where, SPEC.EXTENSIONS[name], why)
     # unknown names -> null
     sel = tables.select(t.a[1], ("s*",))
-    good = len(sel) == 1 and is_null(t.a[1][sel[0][0]][2])
+    def all_null(x, d=0):
+        if is_null(x):
+            return True
+        if d < 8 and x.k == "match":
+            return all(all_null(b, d + 1) for _, _, b in x.a[1])
+        if d < 8 and x.k == "if":
+            return all_null(x.a[1], d + 1) and all_null(x.a[2], d + 1)
+        return False
+    good = len(sel) == 1 and all_null(t.a[1][sel[0][0]][2])
     rep.check(good, "C14-R1", "name/<other>", where, "null", "unknown extension names do not yield null")
     # trait default is null as well
     dp = prog.trait_default_methods(QT).get("extension_custom")
